@@ -1,8 +1,12 @@
-from checks.containers import run_container
+"""C02 - DirectedHypergraph faithfully stores (source set, target set) hyperedges."""
+from checks.containers import run_container, explore_kimpl
+from harness.verdict import Result
 
 
 def run(tier, seed):
-    return run_container("C02", "dir", tier, seed, cc=False)
+    res = Result("C02", tier, seed, "model_checking")
+    explore_kimpl(res, "dir", tier)
+    return run_container("C02", "dir", tier, seed, cc=False, res=res)
 
 
 def replay(path):
